@@ -155,7 +155,7 @@ def kmedoids(X, distance_method, n_clusters=None, n_iters=5, assignments=None,
     """
 
     if cluster_center_inds is not None:
-        if hasattr(cluster_center_inds[0], '__len__') and X_lengths==None:
+        if hasattr(cluster_center_inds[0], '__len__') and X_lengths is None:
             raise ImproperlyConfigured(
             "If cluster_center_inds is given as [[global_traj_id, frame_id],...]"
             "then X_lengths also needs to be supplied")
@@ -351,13 +351,12 @@ def _kmedoids_inputs_tree(
             cluster_center_inds = \
                 util.find_cluster_centers(assignments,distances)
         else:
-            # for short lists, np.random.random_integers sometimes forgets
-            # to assign something to each cluster. This will simply repeat
-            # the assignments if that is the case.
-            cluster_center_inds = np.array([])
-            while len(np.unique(cluster_center_inds)) < n_clusters:
-                cluster_center_inds = \
-                    rng.integers(0,len(X),n_clusters)
+            # the initial medoids have to be distinct frames: draw them
+            # without replacement (redrawing a with-replacement sample until
+            # it happens to be collision-free does not terminate once
+            # n_clusters exceeds a few multiples of sqrt(len(X)))
+            cluster_center_inds = rng.choice(
+                len(X), size=n_clusters, replace=False)
     
     # If cluster_center_inds is given as [(trj id, frame id), ...]
     elif hasattr(cluster_center_inds[0], '__len__'):
